@@ -1,12 +1,18 @@
 //! Small driver of the length-publication protocol for Miri / TSan: N readers on one or more
 //! buffers decoded by the crate's background decoder from a pure-Rust chunked `Read`.
 //! usage: c07miri <readers> <chunks> <seed> [buffers]
-use jbkverif::c07::{install_hook, reader_ops, ChunkyDecoder};
-use jbkverif::proto::Tally;
-use jbkverif::rng::{mix, Rng};
-use std::sync::Arc;
-
+#[cfg(not(jubako_verif))]
 fn main() {
+    eprintln!("c07miri needs the library built with --cfg jubako_verif");
+    std::process::exit(2);
+}
+
+#[cfg(jubako_verif)]
+fn main() {
+    use jbkverif::c07::{install_hook, reader_ops, ChunkyDecoder};
+    use jbkverif::proto::Tally;
+    use jbkverif::rng::{mix, Rng};
+    use std::sync::Arc;
     let a: Vec<u64> = std::env::args().skip(1).filter_map(|x| x.parse().ok()).collect();
     let readers = *a.first().unwrap_or(&3) as usize;
     let chunks = *a.get(1).unwrap_or(&3) as usize;
